@@ -128,7 +128,7 @@ def universe(tier, seed, shard, nshards):
                 [None, 1, (0, 1, 0, 0), (0, 0, 0, 1), (1, 0, 0, 0), (0, 0, 1, 0), (0, r, 0, 0), (0, 0, 0, c), (1, 1, 1, 1)]
             for w in [None, 1, 2] + ([3] if thorough else []):
                 for pen in (None, 0.5):
-                    for ms in (None, 1.2):
+                    for ms in (None, univ.max_step2(seed)):
                         for inner in ('sq', 'eu'):
                             for psi in psis:
                                 yield 'U1-values', ('fast', 'native'), {'s1': s1, 's2': s2, 'window': w, 'penalty': pen, 'psi': psi,
@@ -147,7 +147,7 @@ def universe(tier, seed, shard, nshards):
                             continue
                         for pen in (None, 0.5):
                             for md in THRESH:
-                                for ms in (None, 1.2):
+                                for ms in (None, univ.max_step2(seed)):
                                     yield 'U2-max_dist', ('fast', 'use_c', 'matrix', 'native'), {
                                         's1': s1, 's2': s2, 'window': w, 'penalty': pen, 'psi': psi, 'max_step': ms, 'max_dist': md, 'inner': inner}
                             if pen is None or r == c:   # configurations in which the Euclidean distance is a valid bound (C03)
